@@ -279,6 +279,20 @@ fn bb_replays(ctx: &Ctx, report: &mut Report) -> u64 {
                 Err(e) => report.infra_errors.push(e),
             }
         }
+        if r["engine"] == "BB-c17hub" {
+            if let Ok(c) = serde_json::from_value::<HubCase>(r["case"].clone()) {
+                n += 1;
+                let res = eval_hub(&c);
+                if let Some(msg) = res.violation {
+                    println!("  replay {} still fails: {}", path.display(), msg);
+                    report.fail(Failure {
+                        message: msg,
+                        signature: res.signature.unwrap_or_default(),
+                        replay: res.replay,
+                    });
+                }
+            }
+        }
         if r["engine"] == "BB-c18" {
             match replay_c18(r) {
                 Ok(res) => {
@@ -576,6 +590,22 @@ fn c17(ctx: &Ctx) -> i32 {
     bb_replays(ctx, &mut report);
     bb_part(ctx, &mut report, "c17", BbParams { max_n: 10, failures: false, services: true, rendezvous: true }, ctx.tier.pick(48, 400),
         "real binary: a maximal antichain (2..8) of mutually independent build targets whose scripts wait for each other's marker files (20 s deadline): completes iff they all overlap; non-trivial = antichain >= 2 with a member that has dependencies", 117);
+    if ctx.replay.is_none() {
+        let pr = PropRun {
+            ctx,
+            engine: "BB-hub",
+            rule: "real binary, second invocation over a built tree: a hub target with 34-90 dependents whose up-to-date check takes 2 s (slow cmd_stdout input), next to an unrelated chain u1 (0.5 s) -> u2; u2 must start while the hub's check is still running (marker file), i.e. message routing for unrelated targets is never held up by one target's check",
+            total_cases: ctx.tier.pick(4, 32),
+            threads: 4.min(ctx.threads),
+            max_shrink_iters: 3,
+            stream: 317,
+        };
+        let (part, failures) = run_prop(&pr, hub_case, eval_hub);
+        report.add(part);
+        for f in failures {
+            report.fail(f);
+        }
+    }
     report.finish()
 }
 
@@ -840,7 +870,7 @@ fn c19(ctx: &Ctx) -> i32 {
             report.fail(f);
         }
     }
-    cfg_bb_part(ctx, &mut report, "c19", 0, false, ctx.tier.pick(40, 600),
+    cfg_bb_part(ctx, &mut report, "c19", 0, false, ctx.tier.pick(240, 2000),
         "real binary: requesting root targets under both spellings runs them once; equal target names in several projects each run in their own directory; ran set == reference closure", 219);
     report.finish()
 }
